@@ -33,7 +33,8 @@ def demo_info(path):
 
 
 results = []
-seeds = sorted(x for x in os.listdir(os.path.join(wt, "SEEDS")) if os.path.isdir(os.path.join(wt, "SEEDS", x)))
+only = next((a.split("=")[1].split(",") for a in sys.argv if a.startswith("--only=")), None)
+seeds = sorted(x for x in os.listdir(os.path.join(wt, "SEEDS")) if os.path.isdir(os.path.join(wt, "SEEDS", x)) and x.isdigit() and (only is None or x in only))
 for n in seeds:
     sd = os.path.join(wt, "SEEDS", n)
     rec = {"seed": n}
@@ -98,5 +99,5 @@ for n in seeds:
             "detected": rec["vcheck_rc"] == 1}
         json.dump(meta, open(mp, "w"), indent=1)
 sh("git checkout -q -- . && git clean -fdq -e SEEDS")
-json.dump(results, open(os.path.join(wt, "SEEDS", "confirm_%s.json" % pid), "w"), indent=1)
+json.dump(results, open(os.path.join(wt, "SEEDS", "confirm_%s_%d.json" % (pid, int(time.time()))), "w"), indent=1)
 print("SUMMARY", pid, [(r["seed"], r.get("vcheck_rc")) for r in results])
